@@ -1,10 +1,30 @@
 """Executable oracle for C26: instance counts over random architecture trees (BOUNDED part of C26:
-this is what stands in for ArchNode.iterate_hierarchically, which is not under proof)."""
-import random
+this is what stands in for ArchNode.iterate_hierarchically, which is not under proof).
+
+Families (all on the real API, REQUIRED values from the structural definition written here):
+  1. (original) random Memory / Container / Compute trees of archtrees.random_tree, per-component totals.
+  2. enumerated core: structure templates (Fork followed by the main path, nested Forks, Hierarchical
+     nesting, Array on the path / in a Fork / before a Fork, a mid-path Compute) x every fan-out assignment,
+     observed at the ARCHITECTURE level (Arch.per_component_total_* and Arch.total_*).
+  3. seeded random trees with all component kinds (Memory, Toll, Network, Compute), Containers, nested
+     Hierarchical / Fork, Arrays, several spatial dimensions per node; architecture-level observation.
+  4. call histories: 2-3 calls of calculate_component_costs with flag subsets on the original and on
+     the returned Spec, with a fan-out edited between calls.
+
+Tree node forms (a superset of archtrees'):
+  leaf  (kind, name, fan, area[, (scale, n_parallel)])   fan: int or tuple of ints (one per spatial dimension)
+  ("H", [nodes]) / ("F", [nodes])                         Hierarchical / Fork
+  ("A", name, fan, [leaves])                              Array (leaves only: Array rejects Forks, and
+                                                          flattening rejects any Branch inside an Array)
+"""
+import itertools, math, random
+from fractions import Fraction
 from oracles import archtrees as T
 from oracles.common import in_known
 
 CLASSES = {"F4": lambda c: c["own_fanout"] != 1}
+
+COMPONENT_KINDS = ("Memory", "Toll", "Network", "Compute")
 
 
 def _case(tree, known):
@@ -42,6 +62,465 @@ def witness(p):
     return {"failed": not ok, "observed": bad and f"{bad['component']}: total_area,total_leak_power = {bad['observed']} required {bad['required']}"}
 
 
+# ----------------------------------------------------------------------------------------------
+# extended trees: builder (real API) and the independent definition of the instance counts
+# ----------------------------------------------------------------------------------------------
+DIMS = ("X", "Y", "Z")
+
+
+def _fan(f):
+    return math.prod(f) if isinstance(f, tuple) else f
+
+
+def _spatial(f):
+    """every dimension is written out (also fan-out 1), so that a later edit only assigns a fanout"""
+    fs = f if isinstance(f, tuple) else (f,)
+    return [{"name": DIMS[i], "fanout": v} for i, v in enumerate(fs)]
+
+
+def _is_branch(n):
+    return isinstance(n, tuple) and n[0] in ("H", "F", "A")
+
+
+def _build(tree):
+    from accelforge.frontend.arch import Arch, Hierarchical, Fork, Array, Memory, Compute, Container, Toll
+    from accelforge.frontend.arch.components import Network
+
+    def mk(n):
+        if _is_branch(n):
+            if n[0] == "A":
+                return Array(name=n[1], spatial=_spatial(n[2]), nodes=[mk(c) for c in n[3]])
+            return (Hierarchical if n[0] == "H" else Fork)(nodes=[mk(c) for c in n[1]])
+        kind, name, fan, area = n[:4]
+        kw = {}
+        if kind != "Container":
+            kw = dict(area=area, leak_power=area / 2)
+            if len(n) > 4:
+                sc, npar = n[4]
+                kw.update(area_scale=sc, leak_power_scale=sc, n_parallel_instances=npar)
+        if kind == "Memory":
+            return Memory(name=name, size=1000, actions=T.ACT2, spatial=_spatial(fan), **kw)
+        if kind == "Toll":
+            return Toll(name=name, actions=[{"name": "read", "energy": 1, "throughput": 1}], spatial=_spatial(fan), direction="down", tensors={"keep": "All"}, **kw)
+        if kind == "Network":
+            return Network(name=name, actions=[{"name": "hop", "energy": 1, "throughput": 1}], spatial=_spatial(fan), **kw)
+        if kind == "Compute":
+            return Compute(name=name, actions=[{"name": "compute", "energy": 1, "throughput": 1}], spatial=_spatial(fan), **kw)
+        if kind == "Container":
+            return Container(name=name, spatial=_spatial(fan))
+        raise ValueError(kind)
+
+    return Arch(nodes=[mk(c) for c in tree])
+
+
+def _per_instance(leaf):
+    """(area, leak power) of one instance: the given value x its scale factor x n_parallel_instances"""
+    area = Fraction(leaf[3])
+    if len(leaf) > 4:
+        area = area * Fraction(leaf[4][0]) * Fraction(leaf[4][1])
+    return area, area / 2
+
+
+def _instances(tree):
+    """{component name: (instance count, own fan-out, leaf)} by structural recursion -- the definition.
+    `mult` = product of the fan-outs of the nodes above the current position on the path.
+      * a leaf has mult x (own fan-out) instances; everything after it in the same Hierarchical (and in
+        the Hierarchicals that enclose it) is below it and is multiplied by its fan-out -- except after a
+        Compute, which is a sibling branch, not an ancestor;
+      * a Hierarchical is transparent (its contents continue the path);
+      * a Fork's contents hang below what precedes the Fork, and are NOT above what follows the Fork;
+      * an Array is itself a Spatialable node on the path: its fan-out multiplies every node inside it
+        and every node after it; the nodes inside it are independent of each other (none is above
+        another) and none of them is above what follows the Array."""
+    out = {}
+
+    def rec(nodes, mult):
+        for n in nodes:
+            if _is_branch(n):
+                if n[0] == "H":
+                    mult = rec(n[1], mult)
+                elif n[0] == "F":
+                    rec(n[1], mult)
+                else:
+                    mult = mult * _fan(n[2])
+                    for c in n[3]:
+                        rec([c], mult)
+                continue
+            if n[0] != "Container":
+                out[n[1]] = (mult * _fan(n[2]), _fan(n[2]), n)
+            if n[0] != "Compute":
+                mult = mult * _fan(n[2])
+        return mult
+
+    rec(tree, 1)
+    return out
+
+
+def _names(tree, spatialable_only=True):
+    """names of all nodes that carry a fan-out (leaves and Arrays), preorder"""
+    out = []
+    for n in tree:
+        if _is_branch(n):
+            if n[0] == "A":
+                out.append(n[1])
+                out.extend(_names(n[3]))
+            else:
+                out.extend(_names(n[1]))
+        else:
+            out.append(n[1])
+    return out
+
+
+def _fan_of(tree, name):
+    for n in tree:
+        if _is_branch(n):
+            if n[0] == "A":
+                if n[1] == name:
+                    return n[2]
+                r = _fan_of(n[3], name)
+            else:
+                r = _fan_of(n[1], name)
+            if r is not None:
+                return r
+        elif n[1] == name:
+            return n[2]
+    return None
+
+
+def _with_fan(tree, name, fan):
+    out = []
+    for n in tree:
+        if _is_branch(n):
+            if n[0] == "A":
+                out.append(("A", n[1], fan if n[1] == name else n[2], _with_fan(n[3], name, fan)))
+            else:
+                out.append((n[0], _with_fan(n[1], name, fan)))
+        elif n[1] == name:
+            out.append((n[0], n[1], fan) + tuple(n[3:]))
+        else:
+            out.append(n)
+    return out
+
+
+def _num(x):
+    return None if x is None else Fraction(x)
+
+
+def _required_totals(tree):
+    """{name: (total area, total leak power, own fan-out)} for the components of `tree`"""
+    req = {}
+    for name, (inst, own, leaf) in _instances(tree).items():
+        a, l = _per_instance(leaf)
+        req[name] = (a * inst, l * inst, own)
+    return req
+
+
+def _accept(got, want, own, known):
+    """0 = equal, 1 = inside the open known class F4 with only the own-fan-out factor missing, -1 = wrong"""
+    if got is None:
+        return -1
+    if Fraction(got) == want:
+        return 0
+    if in_known({"own_fanout": own}, known, CLASSES) and Fraction(got) * own == want:
+        return 1
+    return -1
+
+
+def _check_quantity(spec, q, req, known, ctx):
+    """Architecture-level and per-component observation of one quantity (q = 0: area, 1: leak power)
+    against the required totals `req` ({name: (area total, leak total, own fan-out)}).
+    Returns (hits, bad)."""
+    arch = spec.arch
+    label = ("total_area", "total_leak_power")[q]
+    try:
+        per = arch.per_component_total_area if q == 0 else arch.per_component_total_leak_power
+        tot = arch.total_area if q == 0 else arch.total_leak_power
+    except Exception as e:
+        return 0, dict(ctx, observed=f"Arch.per_component_{label} / Arch.{label} raised {type(e).__name__}: {str(e)[:120]}", required={k: float(v[q]) for k, v in req.items()})
+    want_names = sorted(req)
+    if sorted(per) != want_names:
+        return 0, dict(ctx, observed=f"Arch.per_component_{label} lists {sorted(per)}", required=f"exactly the components {want_names}")
+    hits = 0
+    for name in want_names:
+        want, own = req[name][q], req[name][2]
+        direct = getattr(arch.find(name), label)
+        for where, got in (("Arch.per_component_" + label, per[name]), ("find(name)." + label, direct)):
+            a = _accept(got, want, own, known)
+            if a < 0:
+                return hits, dict(ctx, component=name, observed=f"{where}[{name}] = {got}", required=float(want))
+        if _num(per[name]) != _num(direct):
+            return hits, dict(ctx, component=name, observed=f"Arch.per_component_{label}[{name}] = {per[name]} but the component has {direct}", required=float(want))
+        hits += _accept(per[name], want, own, known)
+    s = sum((Fraction(per[name]) for name in want_names), Fraction(0))
+    if Fraction(tot) != s:
+        return hits, dict(ctx, observed=f"Arch.{label} = {tot}", required=f"sum of the per-component totals = {float(s)}")
+    return hits, None
+
+
+def _arch_case(tree, known):
+    """one call on a fresh Spec; both quantities observed at the architecture level"""
+    from accelforge.frontend.spec import Spec
+
+    spec = Spec(arch=_build(tree)).calculate_component_costs()
+    req = _required_totals(tree)
+    hits = 0
+    for q in (0, 1):
+        h, bad = _check_quantity(spec, q, req, known, {"tree": repr(tree)})
+        hits += h
+        if bad:
+            return False, hits, bad
+    return True, hits, None
+
+
+# ----------------------------------------------------------------------------------------------
+# enumerated core
+# ----------------------------------------------------------------------------------------------
+def _templates():
+    M, C, K, TL, N = "Memory", "Compute", "Container", "Toll", "Network"
+    return {
+        # (d) a Fork whose inner nodes have fan-outs, followed by components on the main path
+        "fork_then_main": lambda a, b, c, d: [(M, "M0", 1, 1), ("F", [(K, "K", a, 1), (M, "A", b, 2), (C, "c0", 1, 1)]), (K, "P", c, 1), (M, "B", d, 5), (C, "MAC", 1, 10)],
+        "fork_nested_h": lambda a, b, c, d: [(K, "K", a, 1), ("F", [("H", [(M, "A", b, 2), (K, "Q", c, 1)]), (C, "c0", 1, 1)]), (M, "B", d, 5), (C, "MAC", 1, 10)],
+        "nested_forks": lambda a, b, c, d: [(K, "K", a, 1), ("F", [(K, "Q", b, 1), ("F", [(M, "A", c, 2), (C, "c1", 1, 1)]), (TL, "A2", 1, 5), (C, "c0", 1, 1)]), (M, "B", d, 10), (C, "MAC", 1, 1)],
+        "h_in_h": lambda a, b, c, d: [("H", [(K, "K", a, 1), ("H", [(M, "A", b, 2)])]), (TL, "T", c, 5), (N, "N", d, 10), (C, "MAC", 1, 1)],
+        "mid_compute": lambda a, b, c, d: [(M, "M0", a, 1), (C, "c0", b, 2), (M, "B", c, 5), (C, "MAC", d, 10)],
+        # (b) Arrays
+        "array_on_path": lambda a, b, c, d: [(M, "M0", 1, 1), (K, "K", a, 1), ("A", "Arr", b, [(M, "G", c, 2), (M, "R", 1, 5), (C, "ca", 1, 1)]), (M, "S", d, 10), (C, "MAC", 1, 1)],
+        "array_in_fork": lambda a, b, c, d: [(K, "K", a, 1), ("F", [("A", "Arr", b, [(M, "G", c, 2)]), (M, "A", 1, 1), (C, "c0", 1, 1)]), (M, "B", d, 5), (C, "MAC", 1, 10)],
+        "array_then_fork": lambda a, b, c, d: [("A", "Arr", a, [(K, "Q", b, 1), (N, "N", 1, 1), (M, "G", c, 2)]), ("F", [(M, "A", d, 5), (C, "c0", 1, 1)]), (M, "B", 1, 10), (C, "MAC", 1, 1)],
+        "array_2d_in_h": lambda a, b, c, d: [(M, "M0", a, 1), ("H", [("A", "Arr", (b, c), [(TL, "G", (d, 2), 2), (M, "R", 1, 5)])]), (C, "MAC", 1, 10)],
+    }
+
+
+def _core(values, known, stride=1, offset=0):
+    """every template x every assignment of `values` to its four fan-out slots (stride/offset thin it)"""
+    ev, hits, seen = 0, 0, set()
+    k = 0
+    for tname, make in _templates().items():
+        for fans in itertools.product(values, repeat=4):
+            k += 1
+            if (k + offset) % stride:
+                continue
+            tree = make(*fans)
+            seen.add(repr(tree))
+            ok, h, bad = _arch_case(tree, known)
+            ev += 1
+            hits += h
+            if not ok:
+                bad["template"] = tname
+                return ev, seen, hits, bad
+    return ev, seen, hits, None
+
+
+# ----------------------------------------------------------------------------------------------
+# seeded random extended trees
+# ----------------------------------------------------------------------------------------------
+def _rand_fan(rnd):
+    r = rnd.random()
+    if r < 0.35:
+        return 1
+    if r < 0.85:
+        return rnd.choice([2, 3, 4, 5])
+    return (rnd.choice([1, 2, 3]), rnd.choice([2, 3]))  # two spatial dimensions
+
+
+def _rand_tree(rnd, max_nodes=9, depth=3, scales=False):
+    counter = itertools.count()
+
+    def leaf(kind=None, in_array=False):
+        kind = kind or rnd.choice(("Memory", "Container", "Compute", "Memory", "Toll", "Network"))
+        l = (kind, f"{kind[0]}{next(counter)}", _rand_fan(rnd), rnd.choice([1, 2, 5, 10]))
+        if scales and kind != "Container" and rnd.random() < 0.4:
+            l = l + ((rnd.choice([1, 2, 3]), rnd.choice([1, 2])),)
+        return l
+
+    def level(d, budget):
+        out = []
+        n = rnd.randint(1, max(1, min(4, budget)))
+        for _ in range(n):
+            r = rnd.random()
+            if d > 0 and r < 0.3 and budget > 2:
+                sub = level(d - 1, budget // 2)
+                out.append((rnd.choice(["H", "F", "F"]), sub))
+            elif r < 0.42:
+                out.append(("A", f"Arr{next(counter)}", _rand_fan(rnd), [leaf(in_array=True) for _ in range(rnd.randint(1, 3))]))
+            else:
+                out.append(leaf())
+        return out
+
+    t = level(depth, max_nodes)
+    if rnd.random() < 0.5:  # (d): a Fork with inner fan-outs > 1 right before main-path components
+        inner = [leaf("Container"), leaf("Memory"), leaf("Compute")]
+        inner = [(k, n, f if _fan(f) > 1 else rnd.choice([2, 3])) + tuple(rest) for (k, n, f, *rest) in inner]
+        t.append(("F", inner))
+        t.append(leaf(rnd.choice(["Memory", "Toll", "Container"])))
+        t.append(leaf("Memory"))
+    t.append(leaf("Compute"))  # the main path ends in a compute
+    return t
+
+
+def _random_arch(rnd, n, known):
+    ev, hits, seen = 0, 0, set()
+    for _ in range(n):
+        tree = _rand_tree(rnd, max_nodes=rnd.randint(2, 9), depth=rnd.randint(0, 3), scales=rnd.random() < 0.3)
+        seen.add(repr(tree))
+        ok, h, bad = _arch_case(tree, known)
+        ev += 1
+        hits += h
+        if not ok:
+            return ev, seen, hits, bad
+    return ev, seen, hits, None
+
+
+# ----------------------------------------------------------------------------------------------
+# call histories
+# ----------------------------------------------------------------------------------------------
+FLAGSETS = [
+    dict(area=True, leak=True, energy=True, throughput=True),
+    dict(area=True, leak=False, energy=False, throughput=False),
+    dict(area=False, leak=True, energy=False, throughput=False),
+    dict(area=True, leak=True, energy=False, throughput=False),
+    dict(area=False, leak=False, energy=True, throughput=True),
+    dict(area=True, leak=False, energy=True, throughput=False),
+    dict(area=False, leak=True, energy=False, throughput=True),
+    dict(area=False, leak=False, energy=False, throughput=False),
+]
+
+
+def _set_fan(spec, name, fan):
+    node = spec.arch.find(name)
+    fs = fan if isinstance(fan, tuple) else (fan,)
+    assert len(node.spatial) == len(fs)
+    for s, v in zip(node.spatial, fs):
+        s.fanout = v
+
+
+def _history_case(tree, steps, known):
+    """steps: [{"on": "orig"|"last", "flags": {...}, "edit": None | (name, fan)}].  The edit is applied
+    to the receiver Spec (the original, never evaluated one, or the Spec returned by the previous call)
+    just before the call.
+    Model of what is required: a Spec carries its current tree and, per quantity (area, leak power), the
+    tree for which that quantity's totals were last asked (None: never).  A call copies the receiver's
+    state and, for every quantity its flags ask for, sets the totals of ALL components from the
+    receiver's CURRENT tree.  The original Spec is never changed by a call.  The check is made on the Spec
+    returned by the LAST call: a quantity asked for by that call must match the current tree; a quantity
+    asked for only by earlier calls in the chain must still be the totals of the tree at that time
+    (a call that does not ask for it must not touch it); a quantity never asked for is not constrained."""
+    from accelforge.frontend.spec import Spec
+
+    orig = Spec(arch=_build(tree))
+    state = {"orig": {"tree": tree, "asked": [None, None]}}
+    last = None
+    ev = 0
+    for i, st in enumerate(steps):
+        on = st["on"] if last is not None else "orig"
+        recv = orig if on == "orig" else last
+        rs = state["orig"] if on == "orig" else state["last"]
+        if st.get("edit"):
+            name, fan = st["edit"]
+            _set_fan(recv, name, fan)
+            rs["tree"] = _with_fan(rs["tree"], name, fan)
+        out = recv.calculate_component_costs(**st["flags"])
+        ev += 1
+        ns = {"tree": rs["tree"], "asked": list(rs["asked"])}
+        if st["flags"]["area"]:
+            ns["asked"][0] = rs["tree"]
+        if st["flags"]["leak"]:
+            ns["asked"][1] = rs["tree"]
+        if not any(st["flags"].values()):
+            # documented: nothing to do, the receiver itself is returned
+            if out is not recv:
+                return ev, 0, {"tree": repr(tree), "steps": steps, "observed": f"call {i} with all flags False returned a different Spec", "required": "the receiver itself"}
+            ns = rs
+        if out is recv and on == "orig" and any(st["flags"].values()):
+            return ev, 0, {"tree": repr(tree), "steps": steps, "observed": f"call {i} returned the unevaluated receiver", "required": "a Spec with calculated costs"}
+        last = out
+        state["last"] = ns
+    hits = 0
+    fin = state["last"]
+    for q in (0, 1):
+        if fin["asked"][q] is None:
+            continue
+        req = _required_totals(fin["asked"][q])
+        h, bad = _check_quantity(last, q, req, known, {"tree": repr(tree), "steps": steps, "totals_required_for_tree": repr(fin["asked"][q])})
+        hits += h
+        if bad:
+            return ev, hits, bad
+    return ev, hits, None
+
+
+def _rand_steps(rnd, tree):
+    names = _names(tree)
+    steps = []
+    cur = {"orig": tree, "last": None}
+    for i in range(rnd.choice([2, 2, 3])):
+        on = "orig" if i == 0 else rnd.choice(["last", "last", "last", "orig"])
+        edit = None
+        if i > 0 and rnd.random() < 0.75:
+            name = rnd.choice(names)
+            old = _fan_of(cur[on], name)
+            if isinstance(old, tuple):
+                new = tuple(rnd.choice([v for v in (1, 2, 3, 4) if v != o]) for o in old)
+            else:
+                new = rnd.choice([v for v in (1, 2, 3, 4, 5, 6) if v != old])
+            edit = (name, new)
+            cur[on] = _with_fan(cur[on], name, new)
+        if i == 0:
+            flags = rnd.choice(FLAGSETS[:7])
+        else:
+            flags = rnd.choice(FLAGSETS)
+        steps.append({"on": on, "flags": dict(flags), "edit": edit})
+        cur["last"] = cur[on]
+    return steps
+
+
+HISTORY_CORE_TREES = {
+    "container_above": [("Memory", "Main", 1, 1), ("Container", "PE", 2, 1), ("Memory", "Buf", 1, 10), ("Compute", "MAC", 1, 5)],
+    "fork_and_array": [("Container", "K", 2, 1), ("F", [("Container", "Q", 3, 1), ("Memory", "A", 1, 2), ("Compute", "c0", 1, 1)]), ("A", "Arr", 2, [("Memory", "G", 1, 5)]), ("Memory", "B", 1, 10, (2, 3)), ("Compute", "MAC", 1, 1)],
+}
+HISTORY_CORE_EDITS = {"container_above": [("PE", 5), ("Main", 3)], "fork_and_array": [("K", 5), ("Q", 4), ("Arr", 3)]}
+
+
+def _history_core(known, stride=1, offset=0):
+    """every pair of flag subsets (first call not all-False) x {no edit, each listed edit} x second call on
+    {the returned Spec, the original}, on two fixed trees"""
+    ev, hits, seen = 0, 0, set()
+    k = 0
+    for tname, tree in HISTORY_CORE_TREES.items():
+        for f1 in FLAGSETS[:7]:
+            for f2 in FLAGSETS:
+                for edit in [None] + HISTORY_CORE_EDITS[tname]:
+                    for on in ("last", "orig"):
+                        k += 1
+                        if (k + offset) % stride:
+                            continue
+                        steps = [{"on": "orig", "flags": dict(f1), "edit": None}, {"on": on, "flags": dict(f2), "edit": edit}]
+                        seen.add(repr((tname, steps)))
+                        e, h, bad = _history_case(tree, steps, known)
+                        ev += e
+                        hits += h
+                        if bad:
+                            return ev, seen, hits, bad
+    return ev, seen, hits, None
+
+
+def _random_histories(rnd, n, known):
+    ev, hits, seen = 0, 0, set()
+    for _ in range(n):
+        tree = _rand_tree(rnd, max_nodes=rnd.randint(2, 7), depth=rnd.randint(0, 2), scales=rnd.random() < 0.5)
+        steps = _rand_steps(rnd, tree)
+        seen.add(repr((tree, steps)))
+        e, h, bad = _history_case(tree, steps, known)
+        ev += e
+        hits += h
+        if bad:
+            return ev, seen, hits, bad
+    return ev, seen, hits, None
+
+
+# ----------------------------------------------------------------------------------------------
+# sweeps and modes
+# ----------------------------------------------------------------------------------------------
 def _sweep(seed, n, known):
     rnd = random.Random(seed)
     seen, hits = set(), 0
@@ -55,17 +534,72 @@ def _sweep(seed, n, known):
     return n, len(seen), hits, None
 
 
+SIZES = {
+    # original random trees, core fan-out values, core stride, random arch trees, history core stride, random histories
+    "replay": dict(n=60, values=(1, 2, 3), stride=9, arch=60, hstride=8, hist=60),
+    "quick": dict(n=150, values=(1, 2, 3), stride=1, arch=250, hstride=2, hist=250),
+    "thorough": dict(n=1500, values=(1, 2, 3, 5), stride=1, arch=4000, hstride=1, hist=4000),
+}
+
+
+def _full(seed, size, known, only=None):
+    """`only` (testing aid): a list of part names out of original, core, arch, history_core, histories"""
+    z = SIZES[size]
+    ev, d, hits, bad = _sweep(seed, z["n"], known) if not only or "original" in only else (0, 0, 0, None)
+    if bad:
+        return ev, d, hits, bad
+    rnd = random.Random(seed * 7919 + 17)
+    for pname, part in (
+        ("core", lambda: _core(z["values"], known, z["stride"], seed)),
+        ("arch", lambda: _random_arch(rnd, z["arch"], known)),
+        ("history_core", lambda: _history_core(known, z["hstride"], seed)),
+        ("histories", lambda: _random_histories(rnd, z["hist"], known)),
+    ):
+        if only and pname not in only:
+            continue
+        e, s, h, bad = part()
+        ev, d, hits = ev + e, d + len(s), hits + h
+        if bad:
+            return ev, d, hits, bad
+    return ev, d, hits, None
+
+
 def replay(p):
-    ev, d, hits, bad = _sweep(p.get("seed", 0), 150, p.get("known"))
+    ev, d, hits, bad = _full(p.get("seed", 0), "replay", p.get("known"), p.get("only"))
     if bad:
         return {"failed": True, "input": bad, "observed": bad["observed"], "required": bad["required"]}
     return {"failed": False, "tried": ev}
 
 
+BOUND = ("architecture trees of depth <= 4 with <= ~16 named nodes (Memory / Toll / Network / Compute / Container leaves inside nested "
+         "Hierarchical / Fork / Array; Arrays hold 1-3 leaves), fan-outs 1-6 in one or two spatial dimensions, area_scale / "
+         "leak_power_scale 1-3 and n_parallel_instances 1-2; enumerated core: 9 structure templates x every assignment of the "
+         "listed fan-out values to 4 slots; call histories of 2-3 calls with 8 flag subsets, at most one fan-out edit before each "
+         "later call, receiver = the original or the previously returned Spec (enumerated: 2 trees x 7 x 8 flag pairs x edits x receiver)")
+RULE = ("trees built with the real API; Spec.calculate_component_costs is called and, for every component (Memory / Toll / Network / "
+        "Compute wherever it sits), Arch.per_component_total_area / per_component_total_leak_power (which must list exactly the "
+        "components of the tree), the component's own total_area / total_leak_power and Arch.total_area / total_leak_power (= the sums) "
+        "are compared with (area x area_scale x n_parallel_instances) x #instances, #instances computed by structural recursion in the "
+        "oracle: own fan-out x product of the fan-outs of the non-Compute named nodes above it on its path. A Hierarchical is transparent; "
+        "the contents of a Fork are below what precedes the Fork and not above what follows it; an Array is a Spatialable node on the "
+        "path, so its fan-out multiplies every component inside it and everything after it, while the nodes inside it are independent "
+        "(not above each other, not above what follows the Array) -- this is the Spatialable.spatial docstring ('spatial fanouts "
+        "specified at this level also apply to lower-level Leaf nodes') and the iterate_hierarchically comment ('Array -> each node is "
+        "independent'), and the unchanged behaviour. Call histories: after 2-3 calls with flag subsets (receiver = original or returned "
+        "Spec, a fan-out edited on the receiver between calls) the totals of every quantity the LAST call asked for must match the "
+        "receiver's CURRENT tree; a quantity asked for only by an earlier call of the chain must still hold that call's totals. "
+        "Inside the open known class F4 only the own-fan-out factor may be missing.")
+
+
 def crosscheck(p):
-    n = 150 if p.get("n", 200) <= 200 else 1500
-    ev, d, hits, bad = _sweep(p.get("seed", 0), n, p.get("known"))
+    size = "quick" if p.get("n", 200) <= 200 else "thorough"
+    ev, d, hits, bad = _full(p.get("seed", 0), size, p.get("known"), p.get("only"))
     if bad:
         return {"failed": True, "input": bad, "observed": bad["observed"], "required": bad["required"]}
-    return {"failed": False, "evaluations": ev, "distinct": d, "known_finding_hits": hits, "bound": "architecture trees of depth <= 4 with <= ~12 leaves (Memory / Container / Compute inside nested Hierarchical / Fork), fan-outs 1-4",
-            "rule": "random architecture trees built with the real API; for every component the real total_area / total_leak_power after Spec.calculate_component_costs vs area x (own fan-out) x product of the fan-outs of the non-Compute nodes above it on its path (earlier in preorder, not inside a Fork that does not contain it)"}
+    rnd = random.Random(p.get("seed", 0))
+    samples = [repr(_rand_tree(rnd, max_nodes=5, depth=1))[:160] for _ in range(3)] + [repr(make(2, 3, 1, 2))[:160] for make in list(_templates().values())[:3]]
+    return {"failed": False, "evaluations": ev, "distinct": d, "known_finding_hits": hits, "bound": BOUND, "rule": RULE, "exhaustive": True, "samples": samples}
+
+
+def bounded(p):
+    return crosscheck({"seed": p.get("seed", 0), "n": 200 if p.get("tier", "quick") == "quick" else 2000, "known": p.get("known")})
